@@ -228,6 +228,7 @@ def submission(cases):
             min_deadline = 0
             max_deadline = 10 ** 9
             use_branch_predicated_deadlines = False
+            decompose_deadlines = False
             log_dir = None
             log_file_name = None
             log_level = "error"
